@@ -550,7 +550,7 @@ class CppParser:
 
 CLASS_NAMES: set = set()
 CLASS_HEAD = re.compile(r'^class ([A-Za-z_]\w*)(?: : public ([A-Za-z_]\w*))? \{\s*$')
-FIELD = re.compile(r'^\tpublic: (int|bool) ([A-Za-z_]\w*);\s*$')
+FIELD = re.compile(r'^\t(?:public|protected|private): (int|bool) ([A-Za-z_]\w*);\s*$')
 METHOD_HEAD = re.compile(r'^\t(static )?(int|bool|void|[A-Z]\w*)\s+([A-Za-z_]\w*)\((.*?)\)\s*\{\s*$')
 CTOR_HEAD = re.compile(r'^\t([A-Za-z_]\w*)\((.*?)\)(?: : (.*?))? \{(\})?\s*$')
 
